@@ -5,6 +5,7 @@ import (
 	"encoding/base64"
 	"encoding/json"
 	"fmt"
+	"sync/atomic"
 
 	"verifharness/internal/core"
 	"verifharness/internal/imggen"
@@ -99,14 +100,14 @@ func c05WebP(name, kind string, w, h uint32, rng *core.RNG, flags uint8) genFile
 func runC05(r *core.Run) {
 	r.Rule = "generated well-formed PNG (all colour-type/depth pairs x interlace x boundary dims x random ancillary chunk sequences), JPEG (SOF0/SOF2 x 1/3/4 components x sampling factors x boundary dims x random APPn/COM/DQT/DHT/DRI prefixes) and WebP (VP8 with all scaling bits, VP8L, VP8X with all 256 flag bytes) + real files + real encoder output, each through the specific and the auto loader; thorough sweeps each header field exhaustively; non-trivial = distinct (format, w, h, depth) with w != h and a bit above bit 10 set in one of them"
 	r.Assumptions = []string{"generator ground truth, cross-checked by image/png, image/jpeg and x/image/webp DecodeConfig wherever the decoder accepts the file"}
-	var confirmed, genOnly, total int64
+	var confirmed, genOnly, total atomic.Int64
 	one := func(f genFile) {
 		kind, msg, loader, conf, herr := c05Check(f)
-		total++
+		total.Add(1)
 		if conf {
-			confirmed++
+			confirmed.Add(1)
 		} else {
-			genOnly++
+			genOnly.Add(1)
 		}
 		if herr != "" {
 			r.Inconclusive("harness: " + herr)
@@ -114,7 +115,7 @@ func runC05(r *core.Run) {
 		}
 		t := f.Truth
 		if t.W != t.H && (t.W|t.H) >= 2048 {
-			r.NT(fmt.Sprintf("%s/%d/%d/%d", t.Format, t.W, t.H, t.Depth))
+			r.NTHash(mix(mix(uint64(len(t.Format))<<32|uint64(t.Depth), uint64(t.W)), uint64(t.H)))
 		}
 		if kind != "" {
 			r.Violate("file", t.Format+"/"+loader+"/"+kind+"/"+c05Class(f), msg, c05Case{f.Name, t, loader, base64.StdEncoding.EncodeToString(f.Bytes)})
@@ -136,14 +137,18 @@ func runC05(r *core.Run) {
 	if r.Thorough() {
 		nrand = 700000
 	}
-	for i := 0; i < nrand; i++ {
-		td := core.Pick(rng, pngTypeDepths)
-		w, h := uint32(1+rng.U32()%(1<<31-1)), uint32(1+rng.U32()%(1<<31-1))
-		if i%2 == 0 {
-			w, h = uint32(1+rng.Intn(70000)), uint32(1+rng.Intn(70000))
+	shards := 32
+	core.ParallelFor(shards, 16, func(sh int) {
+		rng := core.NewRNG(r.Seed, "C05", "png", fmt.Sprint(sh))
+		for i := 0; i < nrand/shards; i++ {
+			td := core.Pick(rng, pngTypeDepths)
+			w, h := uint32(1+rng.U32()%(1<<31-1)), uint32(1+rng.U32()%(1<<31-1))
+			if i%2 == 0 {
+				w, h = uint32(1+rng.Intn(70000)), uint32(1+rng.Intn(70000))
+			}
+			one(c05PNG("random", w, h, td[0], td[1], uint8(rng.Intn(2)), rng, 6))
 		}
-		one(c05PNG("random", w, h, td[0], td[1], uint8(rng.Intn(2)), rng, 6))
-	}
+	})
 	// JPEG boundary matrix
 	jdims := []int{1, 255, 256, 257, 32767, 32768, 65535}
 	for _, prog := range []bool{false, true} {
@@ -157,9 +162,12 @@ func runC05(r *core.Run) {
 			}
 		}
 	}
-	for i := 0; i < nrand; i++ {
-		one(c05JPEG("random", 1+rng.Intn(65535), 1+rng.Intn(65535), rng.Bool(), core.Pick(rng, []int{1, 3, 4}), core.Pick(rng, jpegSamplings), rng, 8))
-	}
+	core.ParallelFor(shards, 16, func(sh int) {
+		rng := core.NewRNG(r.Seed, "C05", "jpeg", fmt.Sprint(sh))
+		for i := 0; i < nrand/shards; i++ {
+			one(c05JPEG("random", 1+rng.Intn(65535), 1+rng.Intn(65535), rng.Bool(), core.Pick(rng, []int{1, 3, 4}), core.Pick(rng, jpegSamplings), rng, 8))
+		}
+	})
 	// WebP
 	d14 := []uint32{1, 2, 255, 256, 257, 4095, 4096, 8191, 8192, 16383}
 	for _, w := range d14 {
@@ -180,16 +188,19 @@ func runC05(r *core.Run) {
 			one(c05WebP("boundary", "VP8X", w, h, rng, uint8(fl)))
 		}
 	}
-	for i := 0; i < nrand; i++ {
-		switch i % 3 {
-		case 0:
-			one(c05WebP("random", "VP8", uint32(1+rng.Intn(16383)), uint32(1+rng.Intn(16383)), rng, 0))
-		case 1:
-			one(c05WebP("random", "VP8L", uint32(1+rng.Intn(16384)), uint32(1+rng.Intn(16384)), rng, 0))
-		case 2:
-			one(c05WebP("random", "VP8X", uint32(1+rng.Intn(1<<24)), uint32(1+rng.Intn(1<<24)), rng, uint8(rng.Intn(256))))
+	core.ParallelFor(shards, 16, func(sh int) {
+		rng := core.NewRNG(r.Seed, "C05", "webp", fmt.Sprint(sh))
+		for i := 0; i < nrand/shards; i++ {
+			switch i % 3 {
+			case 0:
+				one(c05WebP("random", "VP8", uint32(1+rng.Intn(16383)), uint32(1+rng.Intn(16383)), rng, 0))
+			case 1:
+				one(c05WebP("random", "VP8L", uint32(1+rng.Intn(16384)), uint32(1+rng.Intn(16384)), rng, 0))
+			case 2:
+				one(c05WebP("random", "VP8X", uint32(1+rng.Intn(1<<24)), uint32(1+rng.Intn(1<<24)), rng, uint8(rng.Intn(256))))
+			}
 		}
-	}
+	})
 	if r.Thorough() {
 		c05Sweeps(r, rng, one)
 	}
@@ -204,8 +215,8 @@ func runC05(r *core.Run) {
 		}
 		for _, loader := range []string{loaderFor(rf.Format), "autometa"} {
 			res := loadWith(loader, bytes.NewReader(rf.Bytes))
-			total++
-			confirmed++
+			total.Add(1)
+			confirmed.Add(1)
 			s := summarise(res)
 			if !s.OK || s.Format != rf.Format || int(s.W) != w || int(s.H) != h {
 				r.Violate("real", rf.Format+"/"+loader+"/real", fmt.Sprintf("%s via %s: got %+v, standard decoder says %dx%d", rf.Name, loader, s, w, h),
@@ -213,9 +224,9 @@ func runC05(r *core.Run) {
 			}
 		}
 	}
-	r.AddEvals(total)
-	r.Obs("confirmed_by_standard_decoder", confirmed)
-	r.Obs("generator_only", genOnly)
+	r.AddEvals(total.Load())
+	r.Obs("confirmed_by_standard_decoder", confirmed.Load())
+	r.Obs("generator_only", genOnly.Load())
 	ex := c05PNG("sample", 640, 480, 6, 8, 0, core.NewRNG(1, "s"), 2)
 	r.Sample(map[string]any{"name": ex.Name, "bytes": len(ex.Bytes), "truth": ex.Truth})
 	ex = c05WebP("sample", "VP8", 4660, 1400, core.NewRNG(1, "s"), 0)
@@ -230,53 +241,55 @@ func c05Class(f genFile) string {
 }
 
 // c05Sweeps: each header field swept exhaustively with the other at 5 values.
-func c05Sweeps(r *core.Run, rng *core.RNG, one func(genFile)) {
-	others14 := []uint32{1, 100, 4097, 8192, 16383}
-	for v := uint32(1); v <= 16383; v++ {
-		for _, o := range others14 {
-			one(c05WebP("sweep", "VP8", v, o, rng, 0))
-			one(c05WebP("sweep", "VP8", o, v, rng, 0))
-		}
-	}
-	for v := uint32(1); v <= 16384; v++ {
-		for _, o := range others14 {
-			one(c05WebP("sweep", "VP8L", v, o, rng, 0))
-			one(c05WebP("sweep", "VP8L", o, v, rng, 0))
-		}
-	}
-	others24 := []uint32{1, 65536, 1 << 24}
-	for v := uint32(1); v <= 1<<24; v++ {
-		o := others24[v%3]
-		one(c05WebP("sweep", "VP8X", v, o, rng, uint8(v)))
-		one(c05WebP("sweep", "VP8X", o, v, rng, uint8(v>>8)))
-	}
-	for v := 1; v <= 65535; v++ {
-		for _, o := range []int{1, 257, 32768, 65535} {
-			one(c05JPEG("sweep", v, o, v%2 == 0, []int{1, 3, 4}[v%3], jpegSamplings[v%4], rng, 1))
-			one(c05JPEG("sweep", o, v, v%2 == 1, []int{1, 3, 4}[v%3], jpegSamplings[v%4], rng, 1))
-		}
-	}
-	// PNG: each 16-bit half of each field swept, the other half at 3 values; plus walking bits
-	for v := uint32(0); v < 65536; v++ {
-		for _, hi := range []uint32{0, 1, 0x7fff} {
-			w := hi<<16 | v
-			if w == 0 {
-				continue
+func c05Sweeps(r *core.Run, _ *core.RNG, one func(genFile)) {
+	blocks := 256
+	core.ParallelFor(blocks, 16, func(bk int) {
+		rng := core.NewRNG(r.Seed, "C05", "sweep", fmt.Sprint(bk))
+		others14 := []uint32{1, 100, 4097, 8192, 16383}
+		for v := uint32(1 + bk); v <= 16384; v += uint32(blocks) {
+			for _, o := range others14 {
+				if v <= 16383 {
+					one(c05WebP("sweep", "VP8", v, o, rng, 0))
+					one(c05WebP("sweep", "VP8", o, v, rng, 0))
+				}
+				one(c05WebP("sweep", "VP8L", v, o, rng, 0))
+				one(c05WebP("sweep", "VP8L", o, v, rng, 0))
 			}
-			td := pngTypeDepths[v%uint32(len(pngTypeDepths))]
-			one(c05PNG("sweep", w, 1+v%977, td[0], td[1], uint8(v&1), rng, 1))
-			one(c05PNG("sweep", 1+v%977, w, td[0], td[1], uint8(v&1), rng, 1))
 		}
-		for _, lo := range []uint32{0, 1, 0xffff} {
-			w := (v&0x7fff)<<16 | lo
-			if w == 0 {
-				continue
+		others24 := []uint32{1, 65536, 1 << 24}
+		for v := uint32(1 + bk); v <= 1<<24; v += uint32(blocks) {
+			o := others24[v%3]
+			one(c05WebP("sweep", "VP8X", v, o, rng, uint8(v)))
+			one(c05WebP("sweep", "VP8X", o, v, rng, uint8(v>>8)))
+		}
+		for v := 1 + bk; v <= 65535; v += blocks {
+			for _, o := range []int{1, 257, 32768, 65535} {
+				one(c05JPEG("sweep", v, o, v%2 == 0, []int{1, 3, 4}[v%3], jpegSamplings[v%4], rng, 1))
+				one(c05JPEG("sweep", o, v, v%2 == 1, []int{1, 3, 4}[v%3], jpegSamplings[v%4], rng, 1))
 			}
-			td := pngTypeDepths[v%uint32(len(pngTypeDepths))]
-			one(c05PNG("sweep", w, 3, td[0], td[1], 0, rng, 0))
-			one(c05PNG("sweep", 3, w, td[0], td[1], 0, rng, 0))
 		}
-	}
+		// PNG: each 16-bit half of each field swept, the other half at 3 values
+		for v := uint32(bk); v < 65536; v += uint32(blocks) {
+			for _, hi := range []uint32{0, 1, 0x7fff} {
+				w := hi<<16 | v
+				if w == 0 {
+					continue
+				}
+				td := pngTypeDepths[v%uint32(len(pngTypeDepths))]
+				one(c05PNG("sweep", w, 1+v%977, td[0], td[1], uint8(v&1), rng, 1))
+				one(c05PNG("sweep", 1+v%977, w, td[0], td[1], uint8(v&1), rng, 1))
+			}
+			for _, lo := range []uint32{0, 1, 0xffff} {
+				w := (v&0x7fff)<<16 | lo
+				if w == 0 {
+					continue
+				}
+				td := pngTypeDepths[v%uint32(len(pngTypeDepths))]
+				one(c05PNG("sweep", w, 3, td[0], td[1], 0, rng, 0))
+				one(c05PNG("sweep", 3, w, td[0], td[1], 0, rng, 0))
+			}
+		}
+	})
 }
 
 func replayC05(stage string, raw json.RawMessage) (bool, string, error) {
